@@ -18,6 +18,7 @@ import (
 	"encoding/json"
 	"errors"
 	"fmt"
+	"golang.org/x/net/websocket"
 	"io"
 	"net"
 	"strconv"
@@ -159,6 +160,7 @@ type PeerOpts struct {
 	Mux        bool
 	Token      string // token used for the control cipher and digests (may be wrong on purpose)
 	TLSConfig  *tls.Config
+	WS         bool // open the transport as a websocket (path /~!frp) first; TLS, if any, runs inside it
 }
 
 // RecvMsg is one control message received by a peer.
@@ -215,6 +217,22 @@ func (p *Peer) rawConn() (net.Conn, error) {
 		return nil, err
 	}
 	var conn net.Conn = c
+	if p.Opts.WS {
+		cfg, err := websocket.NewConfig("ws://"+p.Opts.Server+"/~!frp", "http://"+p.Opts.Server)
+		if err != nil {
+			c.Close()
+			return nil, err
+		}
+		c.SetDeadline(time.Now().Add(20 * time.Second))
+		wc, err := websocket.NewClient(cfg, c)
+		if err != nil {
+			c.Close()
+			return nil, err
+		}
+		c.SetDeadline(time.Time{})
+		wc.PayloadType = websocket.BinaryFrame
+		conn = wc
+	}
 	if p.Opts.TLS {
 		if p.Opts.CustomByte {
 			if _, err := conn.Write([]byte{0x17}); err != nil {
